@@ -355,6 +355,26 @@ pub fn run(g: &mut Global) {
     g.random("long", g.tier.pick(48, 600), &|| strategy(5000, 10000, 0), &check);
     g.random("tiny_units", g.tier.pick(8000, 60000), &tiny_strategy, &check);
     g.random("huge_units", g.tier.pick(6000, 40000), &huge_strategy, &check);
+    // sleep and wake (see hist::sleep_wake_bars): RSI, SLOW_STOCH, PPO carry exponential averages
+    let seed = g.seed;
+    let swk: Vec<(Kind, usize, bool)> = vec![(Kind::Rsi, 2, true), (Kind::Rsi, 3, true), (Kind::Rsi, 14, true), (Kind::SlowStoch, 3, false), (Kind::SlowStoch, 5, true), (Kind::Ppo, 3, true), (Kind::Mfi, 3, false), (Kind::Cci, 5, false)];
+    let nsw = swk.len() as u64;
+    g.exhaustive(
+        "sleep_wake",
+        nsw * 8,
+        &move |i| {
+            let (kind, n, scalar) = swk[(i % nsw) as usize];
+            let flat = crate::hist::SLEEP_LENS[(i / nsw) as usize % 8];
+            let bars = crate::hist::sleep_wake_bars(seed ^ i.wrapping_mul(0x9E3779B97F4A7C15), flat, [100.0, 0.37, 1e4][(i % 3) as usize]);
+            let cfg = crate::hist::cfg_small(kind, n);
+            if scalar && kind.scalar() {
+                Case { cfg, scalar: true, xs: bars.iter().map(|b| X(b.c)).collect(), bars: vec![], stride: 0 }
+            } else {
+                Case { cfg, scalar: false, xs: vec![], bars, stride: 0 }
+            }
+        },
+        &check,
+    );
     // ultra-long single-instance streams (see props/longrun.rs and c13::check_as)
     let lc: Vec<(Cfg, bool)> = vec![
         (Cfg { kind: Kind::Rsi, p: vec![14], m: X(0.0) }, true),
@@ -368,7 +388,6 @@ pub fn run(g: &mut Global) {
         (Cfg { kind: Kind::Ppo, p: vec![12, 26, 9], m: X(0.0) }, true),
         (Cfg { kind: Kind::Obv, p: vec![], m: X(0.0) }, false),
     ];
-    let seed = g.seed;
     let nl = lc.len() as u64;
     let l16 = g.tier.pick(70_000usize, 300_000usize);
     let lc1 = lc.clone();
